@@ -221,6 +221,7 @@ func cmdCheck(args []string) int {
 
 	// generate
 	var all []*oblResult
+	staleFn := map[string]string{} // function -> first invariant that names a vanished local
 	var undecidedFuncs []string
 	var notes = map[string]int{}
 	assumed := map[string]bool{}
@@ -237,6 +238,9 @@ func cmdCheck(args []string) int {
 		for _, u := range fr.Unsupported {
 			undecidedFuncs = append(undecidedFuncs, fmt.Sprintf("%s: %s", pf.Key, u))
 			fmt.Printf("UNDECIDED function=%s reason=%s\n", pf.Key, u)
+		}
+		if len(fr.StaleNames) > 0 {
+			staleFn[pf.Key] = fr.StaleNames[0]
 		}
 		if fr.Ctx != nil {
 			for k, v := range fr.Ctx.notes {
@@ -475,6 +479,14 @@ func cmdCheck(args []string) int {
 			}
 		}
 		regress := func(reason string) {
+			if why, stale := staleFn[o.Fn]; stale {
+				// an invariant of this function names a local that no longer exists (a rename, an inlined
+				// temporary): the proof is incomplete for that reason, which says nothing about the code
+				r.Out = "undecided"
+				undecided = append(undecided, o.Name+": contract out of date ("+why+")")
+				fmt.Printf("UNDECIDED obligation=%s reason=contract-out-of-date (%s)\n", o.Name, why)
+				return
+			}
 			os.MkdirAll(replayDir, 0o755)
 			path := filepath.Join(replayDir, sanitize(o.Name)+".json")
 			if r.ReplayPath != "" {
@@ -515,7 +527,9 @@ func cmdCheck(args []string) int {
 					fmt.Printf("UNDECIDED obligation=%s reason=counterexample-not-reproduced replay=%s\n", o.Name, path)
 				}
 			default: // no replay possible for this obligation shape
-				if expected[o.Name] || !haveBaseline || siblingCallSite(o.Name, expected) {
+				if _, stale := staleFn[o.Fn]; stale {
+					regress("refuted by " + r.R.Solver)
+				} else if expected[o.Name] || !haveBaseline || siblingCallSite(o.Name, expected) {
 					r.Out = "violated"
 					violations++
 					exit = 1
